@@ -13,7 +13,7 @@ MARK = '## 9. Build record'
 NOTES = {
     'C01': 'parts: PBF (Model/Pbf, PbfMsg, StringTable, Delta; byte-exact writer correspondence, cross reads, block-accounting stream, independent framing walker) and text (Model/OplFmt, XmlFmt over an explicit ExpatContract; byte-exact writers, cross reads, real-write→real-read monitor over options × compressions). Proved at full strength: delta/string-table/packed round trips; PBF Info, node, way, relation and dense-node round trips at field and byte level; pbf_block_roundtrip and pbf_file_roundtrip (decodeFile (encodeFile opts h objs) = (projectHeader, objs.map project) whenever the writer succeeds); header round trip with boxes; size estimate sound and block limits (≤ 8000 entities, blob ≤ 32 MiB or the writer raises — the proof exposed the 5-byte blob-size gap fixed in 77d5451); opl_roundtrip and opl_file_roundtrip; xml_roundtrip for nodes/ways/relations and changesets with discussions; xml_file_roundtrip over several buffers, header and change-file theorems (under ExpatContract). Known finding: xml-u32-max:changeset.',
     'C02': 'spec encoders with explicit choice vectors for PBF (field order, dense/plain, granularity, offsets, date granularity, unknown fields, indexdata, table layout, block splitting), o5m (inline vs back-reference per pair, table wrap-around, resets, unknown/sync/jump datasets, o5c) and OPL/XML renderers (attribute order, separators, escape styles, quoting, entity vs char-ref, line endings); files read by the real Reader and by the model decoders. Proved at full strength: pbf_decode_spec, o5m_table_ring + o5m_decode_spec, opl_decode_spec, xml_decode_spec (reader half for any XML-1.0-conformant event source + lexical half for the model tokenizer), field-order/unknown-field/any-rank lemmas, any BlobHeader size ≤ 64 KiB.',
-    'C03': 'parts so far: o5m (cursor-program model with explicit `oob`, o5m_reads_in_bounds, hostile tier under ASan+UBSan in both build modes); PBF/text/layout parts in progress.',
+    'C03': 'partial by design (compiled-code memory safety is established by sanitizer runs, not proved). 60 theorems over the layout/decoder/parser models, which follow the repaired source: (pbf) decoder total; every string handed to a builder is a NUL-free table entry of at most 1024 bytes; pbf_decoded_objects_guards / pbf_decoded_objects_wf: every object decoded from ANY byte string passes all builder guards and is traversed completely in bounds (premise item < 4 GiB, which the real code now enforces: fix 2935e9f was found by trying to discharge it); (xml) reader total over all expat event sequences, xml_reader_keeps_builder_protocol (no add_comment while one is pending, no text without a comment, no null builder), user names <= 1024; (opl/text) timestamp, coordinate, integer, string and escape parsers stop at the terminating NUL, next_utf8_codepoint never reads beyond it; (layout) wf_traverse_in_bounds, builders_traverse_complete, builders_produce_wf_partial (the builders themselves check neither NUL in tag strings nor a text-less comment in the middle of a discussion - no reader commits either); (o5m) decoder never reads at/after the dataset end or outside a table slot, no UB. Tie: real Reader under ASan+UBSan in NDEBUG and assertion builds with a watchdog on prefixes, byte mutations and model-driven structure mutations of valid files in four formats, guarded walk of every delivered buffer, outcome class equal to the models; builder scripts byte-exact against HostileLayout.build; regression probes with stable keys for every repaired defect; >4 GiB item probe on a sanitizer-free build.',
     'C04': "Model/Layout + Model/Buf (epochs model reallocation; raw pointers kept across calls become (epoch, offset); builder calls are micro programs whose only throwing step is reserve_space); 33 theorems, none _partial: capacity_independent for all scripts/capacities/modes yes|internal; buf_inv_bounds and buf_inv_aligned in EVERY reachable state (inductive invariant open_builders_sizes_congruent), destructors_never_throw, misaligned_only_inside_unaligned_list; purge_spec; stale-pointer theorems for the repaired ChangesetDiscussionBuilder (model follows 5690f83: pending comment finished in the destructor); built_bytes / built_bytes_sequence: the script of builder calls for an object commits exactly HostileLayout.build (bridge to C03's one-shot layout model), built_content: under the builders' Guards the committed bytes are Layout.WF and decode to what was passed in; set_field laws. Mode `no` for built_content and tree-level push_back/add_buffer content are monitored, not proved.",
     'C05': 'Model/Pipeline (read thread, parser thread with ParserWithBuffer nesting / PBF blob futures fulfilled by arbitrary workers, consumer with status machine and m_back_buffers; both queues are QueueSM machines of C19); queue_of_futures_order invariant, exactly_once_in_order at full strength for every well-formed configuration, schedule/pool-size independence, nested unwinding order, mask = filtered subsequence, read_after_eof_fails; tie = trace validation of real runs (scheduling validator finds an interleaving of the model consistent with the hook trace) + object-sequence monitor against the single-threaded decode over pool sizes, queue sizes, masks, buffers_type, four formats. Hypothesis blobFault = none on the equation theorems.',
     'C06': 'Model/Wire + Chunks + PbfFraming; theorems for all chunkings (OPL lines, PBF framing, o5m window + dataset loop, XML feed); harness drives the real line_by_line, PBFParser framing functions and O5mParser::ensure_bytes_available (-fno-access-control) and monitors the whole Reader behind a mock decompressor; o5m model = code after fix 4708c02.',
